@@ -14,6 +14,16 @@ import struct
 import numpy as np
 
 
+def fortran_e(x, digits=15):
+    """x as Fortran's E23.15 edit descriptor prints it: 0.ddddddddddddddd E+xx (15 significant digits)"""
+    if x == 0:
+        return "0." + "0" * digits + "E+00"
+    m, e = ("%.*E" % (digits - 1, x)).split("E")
+    sign = "-" if m.startswith("-") else ""
+    m = m.lstrip("-").replace(".", "")
+    return "%s0.%sE%+03d" % (sign, m, int(e) + 1)
+
+
 def child_offsets(ndim):
     """ind -> (ix,iy,iz)[:ndim] in RAMSES order (x fastest)."""
     out = []
@@ -152,6 +162,10 @@ def hydro_vars_for(ndim, kind="rvp"):
             + [(f"B_{c}_right", "d") for c in reversed(r)]
             + [("pressure", "d"), ("temperature", "d")]
         )
+    if kind == "user":
+        # variables for which a user configuration defines exact unit entries next to the stock patterns
+        return ([("density", "d")] + [(f"velocity_{c}", "d") for c in comps]
+                + [("velocity_divergence", "d"), ("position_tag", "d"), ("radiative_energy_fraction", "d"), ("radiative_energy_1", "d"), ("pressure", "d")])
     if kind == "odd":
         return [("density", "d"), ("scalar_00", "d"), ("metallicity", "d"), ("thermal_pressure", "d"), ("internal_energy", "d")]
     raise KeyError(kind)
@@ -160,7 +174,7 @@ def hydro_vars_for(ndim, kind="rvp"):
 class Output:
     def __init__(self, tree, ncpu=1, owner=None, ghosts=None, boxlen=1.0, unit_d=1.0, unit_l=1.0,
                  unit_t=1.0, hydro="rvp", grav=False, rt=None, nxyz=None, boundary_octs=None,
-                 noutput=1, key_width=8, bound_key=None, ordering="hilbert", time=0.5,
+                 noutput=1, key_width=8, bound_key=None, ordering="hilbert", time=0.5, info_format="repr",
                  part=None, sink=None, nout=1, ghost_son="present"):
         self.tree = tree
         self.ndim = tree.ndim
@@ -181,6 +195,7 @@ class Output:
         self.boundary_octs = boundary_octs or []
         self.noutput = noutput
         self.key_width = key_width
+        self.info_format = info_format  # "fortran": reals as RAMSES prints them (E23.15: 15 significant digits)
         self.bound_key = bound_key
         self.ordering = ordering
         self.time = time
@@ -316,7 +331,10 @@ class Output:
         if self.ordering == "hilbert":
             lines.append("   DOMAIN   ind_min                 ind_max")
             for i in range(self.ncpu):
-                lines.append("%8d   %r   %r" % (i + 1, float(bk[i]), float(bk[i + 1])))
+                if getattr(self, "info_format", "repr") == "fortran":
+                    lines.append("%8d%23s%23s" % (i + 1, fortran_e(float(bk[i])), fortran_e(float(bk[i + 1]))))
+                else:
+                    lines.append("%8d   %r   %r" % (i + 1, float(bk[i]), float(bk[i + 1])))
         with open(fname, "w") as f:
             f.write("\n".join(lines) + "\n")
 
